@@ -215,6 +215,7 @@ Record entry := {
   en_dyn : bool;           (* has a lock / can be rewritten by hot-reloading *)
   en_rid : N;              (* reload id *)
   en_flag : bool;          (* reload_global *)
+  en_goi : bool;           (* ghost: the entry was stored by get_or_insert *)
 }.
 
 (* ------------------------------------------------------------------------------ parse_int *)
@@ -345,8 +346,14 @@ Definition cache_read_dir (s : st) (id : string) : st * sum iokind (list dentry)
 Definition cache_get (s : st) (k : key) : option entry := assoc key_eqb k (cache s).
 
 (* CacheEntry::new: dynamic iff the TYPE is hot-reloaded and the cache has a reloader *)
+(* CacheExt::add_any: what get_or_insert stores is never reloadable *)
+Definition mark_goi (e : entry) : entry :=
+  {| en_val := en_val e; en_tok := en_tok e; en_dyn := false; en_rid := en_rid e; en_flag := en_flag e;
+     en_goi := true |}.
+
 Definition mk_entry (s : st) (t : ty) (v : value) (tok : N) : entry :=
-  {| en_val := v; en_tok := tok; en_dyn := hot_reloaded t && has_reloader s; en_rid := 0; en_flag := false |}.
+  {| en_val := v; en_tok := tok; en_dyn := hot_reloaded t && has_reloader s; en_rid := 0; en_flag := false;
+     en_goi := false |}.
 
 (* AssetMap::insert = entry(key).or_insert(entry): the first insertion wins; the loser's value is
    dropped.  Returns the entry now stored and the dropped tokens. *)
@@ -522,7 +529,7 @@ Section Eval.
         match cache_get s1 (TV, id) with
         | Some e => (s1, [EDrop tok], ROk (contribution (en_val e)))
         | None =>
-            let e := mk_entry s1 TV (VInt z "insert") tok in
+            let e := mark_goi (mk_entry s1 TV (VInt z "insert") tok) in
             let '(s2, e', drops) := cache_insert s1 (TV, id) e in
             (s2, drops, ROk (contribution (en_val e')))
         end
@@ -581,7 +588,22 @@ Section Eval.
         (s1, [evr], ROk (VIds (sort_dedup ids), 0%N))
     end.
 
-  (* RecursiveDirectory<TInt>::load *)
+  (* RecursiveDirectory<TInt>::load: the sub-directories, in listing order; unreadable ones are skipped *)
+  Fixpoint rdir_go (s : st) (ds : list string) (ids : list string) (tr : list ev)
+    : st * list ev * res (list string) :=
+    match ds with
+    | [] => (s, tr, ROk ids)
+    | d :: r =>
+        let '(s', tr', x) := load_entry_rec s TRI d in
+        match x with
+        | ROk child =>
+            rdir_go s' r (ids ++ match en_val child with VIds i => i | _ => [] end) (tr ++ tr')
+        | RErr _ => rdir_go s' r ids (tr ++ tr')
+        | RPanic => (s', tr ++ tr', RPanic)
+        | RFuel => (s', tr ++ tr', RFuel)
+        end
+    end.
+
   Definition load_rec_dir_value (s : st) (id : string) : st * list ev * res (value * N) :=
     let '(s1, tr1, r1) := load_entry_rec s TDI id in
     match r1 with
@@ -595,21 +617,7 @@ Section Eval.
         | inl k => (s2, tr1 ++ [evr], RErr (io_err id k))
         | inr l =>
             let subdirs := flat_map (fun d => match d with DDir i => [i] | _ => [] end) l in
-            let fix go (s : st) (ds : list string) (ids : list string) (tr : list ev)
-              : st * list ev * res (list string) :=
-              match ds with
-              | [] => (s, tr, ROk ids)
-              | d :: r =>
-                  let '(s', tr', x) := load_entry_rec s TRI d in
-                  match x with
-                  | ROk child =>
-                      go s' r (ids ++ match en_val child with VIds i => i | _ => [] end) (tr ++ tr')
-                  | RErr _ => go s' r ids (tr ++ tr')
-                  | RPanic => (s', tr ++ tr', RPanic)
-                  | RFuel => (s', tr ++ tr', RFuel)
-                  end
-              end in
-            let '(s3, tr3, x) := go s2 subdirs ids0 (tr1 ++ [evr]) in
+            let '(s3, tr3, x) := rdir_go s2 subdirs ids0 (tr1 ++ [evr]) in
             (s3, tr3, match x with
                       | ROk ids => ROk (VIds ids, 0%N)
                       | RErr e => RErr e | RPanic => RPanic | RFuel => RFuel
@@ -801,18 +809,17 @@ Definition reload_one (fuel : nat) (s : st) (k : key) : st * list ev :=
           match cache_get s k with
           | None => (s, [])
           | Some old =>
+              (* entries that are not reloadable (get_or_insert, non hot-reloaded types) are skipped
+                 before anything is read *)
+              if negb (en_dyn old) then (s, []) else
               let '(s1, tr, r) := load_wrapped (load_entry_f fuel) (load_owned_f fuel) (rec_push s (Some [])) t (snd k) in
               let '(s2, deps) := rec_pop s1 in
               match r with
               | ROk (v, tok) =>
-                  if en_dyn old then
-                    let e := {| en_val := v; en_tok := tok; en_dyn := true;
-                                en_rid := N.succ (en_rid old); en_flag := true |} in
-                    (set_graph (cache_set s2 k e) (graph_insert (graph s2) (DepAsset k) deps t),
-                     tr ++ drop_of_tok (en_tok old))
-                  else
-                    (* write on a static entry panics (wrong handle type): a failed reload; the new value is dropped *)
-                    (s2, tr ++ drop_of_tok tok)
+                  let e := {| en_val := v; en_tok := tok; en_dyn := true;
+                              en_rid := N.succ (en_rid old); en_flag := true; en_goi := en_goi old |} in
+                  (set_graph (cache_set s2 k e) (graph_insert (graph s2) (DepAsset k) deps t),
+                   tr ++ drop_of_tok (en_tok old))
               | _ => (s2, tr)
               end
           end
@@ -907,7 +914,7 @@ Definition step (fuel : nat) (s : st) (o : op) : st * out * list ev :=
       match o with
       | Some e => (s2, OutVal (en_val e) (en_tok e), [EDrop tok])
       | None =>
-          let e := mk_entry s2 t (VInt z "insert") tok in
+          let e := mark_goi (mk_entry s2 t (VInt z "insert") tok) in
           let '(s3, e', drops) := cache_insert s2 (t, id) e in
           (s3, OutVal (en_val e') (en_tok e'), drops)
       end
@@ -971,7 +978,7 @@ Definition step (fuel : nat) (s : st) (o : op) : st * out * list ev :=
       | Some e =>
           if en_dyn e then
             (cache_set s (t, id) {| en_val := en_val e; en_tok := en_tok e; en_dyn := true;
-                                    en_rid := en_rid e; en_flag := false |}, OutBool (en_flag e), [])
+                                    en_rid := en_rid e; en_flag := false; en_goi := en_goi e |}, OutBool (en_flag e), [])
           else (s, OutBool false, [])
       | None => (s, OutNone, [])
       end
